@@ -394,13 +394,14 @@ class NDCubeSequenceBase:
             # corresponding to the input world corners.
             if isinstance(wcs, str):
                 wcs = getattr(cube, wcs)
+            # Ask for slices on every axis (keepdims) so the ranges of all cubes can be combined.
             if crop_by_values:
-                item = cube._get_crop_by_values_item(*points, units=units, wcs=wcs)
+                item = cube._get_crop_by_values_item(*points, units=units, wcs=wcs, keepdims=True)
             else:
-                item = cube._get_crop_item(*points, wcs=wcs)
+                item = cube._get_crop_item(*points, wcs=wcs, keepdims=True)
             for j, s in enumerate(item):
-                starts[i, j] = s.start
-                stops[i, j] = s.stop
+                # Axes that are not cropped are whole-axis slices with open bounds.
+                starts[i, j], stops[i, j], _ = s.indices(cube.shape[j])
         # Construct the item with which to slice the sequence from the min and max
         # rangge of array indices determined above from all cubes.
         starts = starts.min(axis=0)
